@@ -11,6 +11,9 @@ type SecurityRequirements []SecurityRequirement
 func NewSecurityRequirements(s openapi3.SecurityRequirements, schemes SecuritySchemes) ([]SecurityRequirement, error) {
 	out := make([]SecurityRequirement, 0, len(s))
 	for _, sr := range s {
+		if len(sr) > 1 {
+			return nil, fmt.Errorf("security requirement %v: several schemes in one requirement are not supported", sortedKeys(sr))
+		}
 		for k, v := range sr {
 			ss, err := NewSecurityRequirement(k, v, schemes)
 			if err != nil {
